@@ -77,9 +77,28 @@ def _run_chunk(arg):
     return out
 
 
-def enum_check(prop, tier, names, rule, assumptions, chunk=None):
-    """Enumerate every case of every registered sub-check in `names`."""
+def enum_check(prop, tier, names, rule, assumptions, chunk=None, system_tasks=None):
+    """Enumerate every case of every registered sub-check in `names` (plus optional mode-S tasks whose
+    counts are reported under coverage.system_level)."""
     t0 = time.monotonic()
+    sysinfo = None
+    sys_viol, sys_err = [], []
+    if system_tasks:
+        from .run import run_task
+
+        tot = dict(executions=0, states=0, transitions=0, scenarios=0)
+        caps = []
+        for r in run_pool(run_task, system_tasks):
+            tot["scenarios"] += 1
+            if r["error"]:
+                sys_err.append(f"task {r['id']}: {r['error']}")
+                continue
+            for k in ("executions", "states", "transitions"):
+                tot[k] += r[k]
+            if r["capped"]:
+                caps.append(f"{r['id']}: {r['capped']}")
+            sys_viol += [v for v in r["violations"] if v["property"] == prop]
+        sysinfo = dict(tot, caps_hit=caps, traces_validated_against_impl=tot["executions"])
     args = []
     sizes = {}
     for name in names:
@@ -127,6 +146,13 @@ def enum_check(prop, tier, names, rule, assumptions, chunk=None):
         explanation="each case is one element of a finite, completely enumerated domain, executed by the real "
                     "JADE code and compared with a reference model written in /verif/jmc",
     )
+    if sysinfo is not None:
+        cov["system_level"] = sysinfo
+        cov["evaluations"] += sysinfo["executions"]
+        cov["distinct_nontrivial"] += sysinfo["executions"]
+        cov["exhaustive"] = cov["exhaustive"] and not sysinfo["caps_hit"]
+        violations += sys_viol
+        errors += sys_err
     return finish(prop, tier, "model_checking", cov, assumptions, t0, violations, errors)
 
 
